@@ -1,5 +1,5 @@
-(* C19 — tokio-compatible primitives (wrappers/tokio/impls/tokio/inner/src/sync/{mpsc,semaphore,mutex,rwlock,notify,oneshot}.rs),
-   models Lang/TokOps.v, Lang/TokNotify.v, Lang/Tok.v (segment-by-segment expansion of the Rust code over the
+(* C19 — tokio-compatible primitives (wrappers/tokio/impls/tokio/inner/src/sync/{mpsc,semaphore,mutex,rwlock,notify,oneshot,watch}.rs),
+   models Lang/TokOps.v, Lang/TokNotify.v, Lang/TokWatch.v, Lang/Tok.v (segment-by-segment expansion of the Rust code over the
    BatchSemaphore of Prim/Semaphore.v and the polling contexts of Lang/AsyncOps.v), specification Lang/TokSpec.v.
 
    "Under Shuttle the tokio replacements behave as tokio documents: mpsc channels deliver each sent value exactly
@@ -29,11 +29,24 @@
    5. the link between 1./3. and 2. (every block of Lang/TokOps.v is one protocol step, the semaphores being counters by
       C18) is by construction of Lang/TokOps.v and is not a Coq theorem; the link model <-> Rust code is the
       differential check of tools/p_c19.py.
-   Not modelled: watch, OnceCell, broadcast, time, select!, task abort inside these operations, reserve()/closed(). *)
+   6. watch (Lang/TokWatch.v: the RwLock's semaphore + two Notify objects + the cell; Lang/TokWatchSpec.v: the protocol
+      machine over a version counter, one phase per sender between its commit and its notify_waiters, one phase per
+      receiver between its notified() and its await; all interleavings of any number of senders and receivers):
+      "watch receivers always see the latest value" - the borrowed value is the last one committed (C19_watch_latest_value),
+      the version counts the commits and a receiver's version is the count at its last look, never ahead
+      (C19_watch_version_counts), so has_changed / changed answer "changed" exactly for commits after the last look
+      (C19_watch_maybe_changed_complete on the model's block, C19_watch_check_refines tying that block to the machine's
+      WCheck); "and are notified of every change after their last look" - a receiver that waits un-notified has seen the
+      current version of an open channel unless a sender is still between its commit (or closing drop) and its
+      notify_waiters (C19_watch_invariant), that step is always enabled and leaves nobody un-notified
+      (C19_watch_notifier_progress), so at rest no change notification is lost (C19_watch_no_lost_notification); a closed
+      channel never commits again (C19_watch_closed_is_final).  The link machine <-> code trees is by construction of
+      Lang/TokWatch.v (each block of watch_send_modify / changed_loop / watch_drop_tx is one label) and not a theorem.
+   Not modelled: OnceCell, broadcast, time, select!, task abort inside these operations, reserve()/closed() of mpsc. *)
 From Coq Require Import List NArith Bool Arith.
 From SV Require Import Clock.VClock Prim.Objects Engine.Exec Prim.Semaphore Prim.SemInv Lang.Code Lang.SyncOps Lang.AsyncOps Lang.Prog.
-From SV Require Import Lang.TokOps Lang.TokNotify Lang.Tok Lang.TokSpec.
-From SV Require Import Proofs.TokBase Proofs.TokProto Proofs.TokSync.
+From SV Require Import Lang.TokOps Lang.TokNotify Lang.TokWatch Lang.Tok Lang.TokSpec Lang.TokWatchSpec.
+From SV Require Import Proofs.TokBase Proofs.TokProto Proofs.TokSync Proofs.TokWatchProto Proofs.TokWatchBase.
 Import ListNotations.
 Close Scope N_scope.
 
@@ -236,3 +249,116 @@ Example C19_producer_consumer_all_scripts :
   forallb (fun s => match verdict chan1 pc_bodies s with OPass => true | _ => false end) scripts4 = true /\
   forallb (fun s => match received chan1 pc_bodies s with [1; 2; 3]%N => true | _ => false end) scripts4 = true.
 Proof. split; vm_compute; reflexivity. Qed.
+
+(* ================================================================== *)
+(* 6. watch                                                            *)
+(* ================================================================== *)
+Theorem C19_watch_codec : forall x, length (wt_tx x) = 2 -> length (wt_rx x) = 3 -> watch_dec (watch_enc x) = Some x.
+Proof. exact watch_codec. Qed.
+Print Assumptions C19_watch_codec.
+
+(* the protocol invariant holds in every reachable state of every interleaving of any number of senders and receivers *)
+Theorem C19_watch_invariant : forall init ntx nrx steps w,
+  wrun (wm_init init ntx nrx) steps = Some w ->
+  w_val w = last (w_hist w) (w_init w) /\
+  w_ver w = length (w_hist w) /\
+  (forall i p s, nth_error (w_rx w) i = Some (p, s) -> s <= w_ver w) /\
+  (forall i s, nth_error (w_rx w) i = Some (RWait false, s) -> (s = w_ver w /\ w_closed w = false) \/ some_notifier w) /\
+  (w_closed w = true -> live_senders w = 0).
+Proof. exact wm_reachable_inv. Qed.
+Print Assumptions C19_watch_invariant.
+
+Theorem C19_watch_step : forall w i l w', wstep w i l = Some w' -> wm_inv w -> wm_inv w'.
+Proof. exact wm_inv_step. Qed.
+Print Assumptions C19_watch_step.
+
+Theorem C19_watch_latest_value : forall init ntx nrx steps w,
+  wrun (wm_init init ntx nrx) steps = Some w -> w_val w = last (w_hist w) init.
+Proof. exact wm_latest_value. Qed.
+Print Assumptions C19_watch_latest_value.
+
+Theorem C19_watch_version_counts : forall init ntx nrx steps w i p s,
+  wrun (wm_init init ntx nrx) steps = Some w -> nth_error (w_rx w) i = Some (p, s) ->
+  w_ver w = length (w_hist w) /\ s <= length (w_hist w).
+Proof. exact wm_version_counts. Qed.
+Print Assumptions C19_watch_version_counts.
+
+Theorem C19_watch_no_lost_notification : forall init ntx nrx steps w i s,
+  wrun (wm_init init ntx nrx) steps = Some w ->
+  (forall j c, nth_error (w_tx w) j = Some c -> is_notifier c = false) ->
+  nth_error (w_rx w) i = Some (RWait false, s) ->
+  s = w_ver w /\ w_closed w = false.
+Proof. exact wm_no_lost_notification. Qed.
+Print Assumptions C19_watch_no_lost_notification.
+
+Theorem C19_watch_notifier_progress : forall w j c,
+  nth_error (w_tx w) j = Some c -> is_notifier c = true ->
+  exists w', wstep w j WNotify = Some w' /\ (forall i s, nth_error (w_rx w') i = Some (RWait false, s) -> False).
+Proof.
+  intros w j c E Hn. destruct (wm_notify_enabled w j c E Hn) as [w' H]. exists w'. split; [exact H|].
+  intros i s. exact (wm_notify_wakes_all w j w' i s H).
+Qed.
+Print Assumptions C19_watch_notifier_progress.
+
+Theorem C19_watch_woken_receiver_runs : forall w i s, nth_error (w_rx w) i = Some (RWait true, s) -> exists w', wstep w i WWake = Some w'.
+Proof. exact wm_wake_enabled. Qed.
+Print Assumptions C19_watch_woken_receiver_runs.
+
+Theorem C19_watch_closed_is_final : forall w j v, wm_inv w -> w_closed w = true -> wstep w j (WCommit v) = None.
+Proof. exact wm_closed_no_commit. Qed.
+Print Assumptions C19_watch_closed_is_final.
+
+(* the model's block: maybe_changed answers Ok exactly when the versions differ (and then takes the channel's), Err exactly
+   when they are equal on a closed channel, None otherwise, and changes nothing else *)
+Theorem C19_watch_maybe_changed_complete : forall x slot,
+  let nv := st_version (wt_state x) in
+  (wt_ver x slot <> nv -> maybe_changed x slot = (wt_set_ver x slot nv, [0%N])) /\
+  (wt_ver x slot = nv -> st_closed (wt_state x) = true -> maybe_changed x slot = (x, [1%N])) /\
+  (wt_ver x slot = nv -> st_closed (wt_state x) = false -> maybe_changed x slot = (x, [2%N])).
+Proof. exact maybe_changed_spec. Qed.
+Print Assumptions C19_watch_maybe_changed_complete.
+
+Theorem C19_watch_check_refines : forall x slot,
+  ((wt_ver x slot) mod 2 = 0)%N ->
+  snd (maybe_changed x slot) =
+    if negb (Nat.eqb (abs_seen x slot) (abs_ver x)) then [0%N]
+    else if st_closed (wt_state x) then [1%N] else [2%N].
+Proof. exact maybe_changed_refines. Qed.
+Print Assumptions C19_watch_check_refines.
+
+Theorem C19_watch_version_word : forall n,
+  st_version (2 * n) = (2 * n)%N /\ st_version (2 * n + 1) = (2 * n)%N /\ st_closed (2 * n) = false /\ st_closed (2 * n + 1) = true.
+Proof. intros n. repeat split; [apply st_version_open|apply st_version_closed|apply st_closed_open|apply st_closed_closed]. Qed.
+Print Assumptions C19_watch_version_word.
+
+(* the hypotheses are satisfiable: a receiver registers, finds nothing new and waits; a sender commits - in the window
+   before its notify_waiters the receiver waits un-notified with a stale version, covered by the pending notifier -;
+   after the notify the receiver is woken, goes round and sees the change *)
+Example C19_watch_protocol_window :
+  option_map (fun w => (w_rx w, w_tx w, w_ver w, w_val w))
+    (wrun (wm_init 5 1 1) [(0, WRegister); (0, WCheck); (0, WCommit 7)]) = Some ([(RWait false, 0)], [SPending], 1, 7) /\
+  option_map (fun w => (w_rx w, w_tx w))
+    (wrun (wm_init 5 1 1) [(0, WRegister); (0, WCheck); (0, WCommit 7); (0, WNotify)]) = Some ([(RWait true, 0)], [SIdle]) /\
+  option_map (fun w => (w_rx w, w_tx w))
+    (wrun (wm_init 5 1 1) [(0, WRegister); (0, WCheck); (0, WCommit 7); (0, WNotify); (0, WWake); (0, WRegister); (0, WCheck)])
+    = Some ([(RIdle, 1)], [SIdle]) /\
+  (* the last sender's drop closes the channel and wakes the waiting receiver, whose next check reports the closure *)
+  option_map (fun w => (w_rx w, w_tx w, w_closed w))
+    (wrun (wm_init 5 1 1) [(0, WRegister); (0, WCheck); (0, WDropTx); (0, WNotify); (0, WWake); (0, WRegister); (0, WCheck)])
+    = Some ([(RIdle, 0)], [SGone], true).
+Proof. repeat split; vm_compute; reflexivity. Qed.
+
+(* the executable model (code trees over the semaphore, the two Notify objects and the cell): a receiver task blocked in
+   changed() is woken by a send under every script of four binary choices, sees the new value, and a second changed()
+   after the sender's drop reports the closure; the run always passes *)
+Definition watch1 : store := watch_new 5%N 1 1 [0%N].
+Definition wc_bodies : list (list top) :=
+  [[TSpawnA 1; TWSend 0 0 7%N; TWDropTx 0 0; TAwaitA 0]; [TWChanged 0 0; TWBorrowUpd 0 0; TWChanged 0 0]].
+Definition woplog (bodies : list (list top)) (script : list (option nat)) (tag : N) : list (list N) :=
+  let w := fst (fst (run_tok 4000 MSNone watch1 bodies script 1%N)) in
+  flat_map (fun ev => match ev with EvOp _ t vals _ => if N.eqb t tag then [vals] else [] | _ => [] end) (rev (w_trace w)).
+Example C19_watch_model_all_scripts :
+  forallb (fun s => match verdict watch1 wc_bodies s with OPass => true | _ => false end) scripts4 = true /\
+  forallb (fun s => match woplog wc_bodies s 106%N with [[1]; [0]]%N => true | _ => false end) scripts4 = true /\
+  forallb (fun s => match woplog wc_bodies s 104%N with [[7]]%N => true | _ => false end) scripts4 = true.
+Proof. repeat split; vm_compute; reflexivity. Qed.
